@@ -218,6 +218,73 @@ theorem unique_cover (nB nT : Nat) (rB rT : Int) (hrB : rB ≠ 0) (hrT : rT ≠ 
   · simp only [uniqueBatch, uniqueBatchWith, hs]; exact wrapSlice_mem nB bB f hbB hB hf
   · simp only [uniqueBatch, uniqueBatchWith, hs]; exact wrapSlice_mem nT bT x hbT hT hx
 
+/-! ### the per-function layout under any window policy that presents row `i` in window `i / bs` -/
+
+/-- a window policy is adequate if row `i` is presented by window `i / bs` -/
+def WinOk (win : Nat → Nat → Nat → List Nat) : Prop :=
+  ∀ n bs i, 0 < bs → bs ≤ n → i < n → i ∈ win n bs (i / bs)
+
+theorem wrapSlice_ok : WinOk wrapSlice := fun n bs i hbs hle hi => wrapSlice_mem n bs i hbs hle hi
+
+theorem lastSlice_mem (n bs i : Nat) (hbs : 0 < bs) (hle : bs ≤ n) (hi : i < n) : i ∈ lastSlice n bs (i / bs) := by
+  have h1 : i / bs * bs ≤ i := Nat.div_mul_le_self i bs
+  have h2 : i < (i / bs + 1) * bs := by
+    have := Nat.lt_div_mul_add (a := i) hbs
+    rw [Nat.add_mul, Nat.one_mul]; omega
+  simp only [lastSlice, List.mem_map, List.mem_range]
+  refine ⟨i - (min ((i / bs + 1) * bs) n - bs), ?_, ?_⟩
+  · have e : (i / bs + 1) * bs = i / bs * bs + bs := by rw [Nat.add_mul, Nat.one_mul]
+    omega
+  · have e : (i / bs + 1) * bs = i / bs * bs + bs := by rw [Nat.add_mul, Nat.one_mul]
+    omega
+
+theorem lastSlice_ok : WinOk lastSlice := fun n bs i hbs hle hi => lastSlice_mem n bs i hbs hle hi
+
+/-- every row of a last-rows window exists and the window is never larger than requested -/
+theorem lastSlice_lt (n bs idx : Nat) : ∀ i ∈ lastSlice n bs idx, i < n := by
+  intro i hi
+  simp only [lastSlice, List.mem_map, List.mem_range] at hi
+  obtain ⟨a, ha, rfl⟩ := hi
+  omega
+
+theorem lastSlice_length_le (n bs idx : Nat) : (lastSlice n bs idx).length ≤ bs := by
+  simp only [lastSlice, List.length_map, List.length_range]
+  omega
+
+/-- **coverage for every adequate window policy**: one pass over the per-function loader presents every
+    (function, location) pair, for every data-set size and every requested batch size -/
+theorem unique_cover_win (win : Nat → Nat → Nat → List Nat) (hw : WinOk win) (nB nT : Nat) (rB rT : Int)
+    (hrB : rB ≠ 0) (hrT : rT ≠ 0) (f x : Nat) (hf : f < nB) (hx : x < nT) :
+    ∃ idx, idx < uniqueLen nB (effBatch nB rB) nT (effBatch nT rT) ∧
+      f ∈ (uniqueBatchWin win nB (effBatch nB rB) nT (effBatch nT rT) idx).1 ∧
+      x ∈ (uniqueBatchWin win nB (effBatch nB rB) nT (effBatch nT rT) idx).2 := by
+  have hbB := effBatch_pos nB rB (by omega) hrB
+  have hbT := effBatch_pos nT rT (by omega) hrT
+  have hB := effBatch_le nB rB
+  have hT := effBatch_le nT rT
+  generalize effBatch nB rB = bB at *
+  generalize effBatch nT rT = bT at *
+  have hi := div_lt_ceilDiv nB bB f hbB hf
+  have hj := div_lt_ceilDiv nT bT x hbT hx
+  have hTl : 0 < ceilDiv nT bT := Nat.lt_of_le_of_lt (Nat.zero_le _) hj
+  obtain ⟨hlt, hs⟩ := (unique_split_bij (ceilDiv nB bB) (ceilDiv nT bT) hTl).2 _ _ hi hj
+  refine ⟨f / bB * ceilDiv nT bT + x / bT, hlt, ?_, ?_⟩
+  · simp only [uniqueBatchWin, hs]; exact hw nB bB f hbB hB hf
+  · simp only [uniqueBatchWin, hs]; exact hw nT bT x hbT hT hx
+
+/-- the policy "last window = last `bs` rows" covers every pair too -/
+theorem unique_cover_last (nB nT : Nat) (rB rT : Int) (hrB : rB ≠ 0) (hrT : rT ≠ 0)
+    (f x : Nat) (hf : f < nB) (hx : x < nT) :
+    ∃ idx, idx < uniqueLen nB (effBatch nB rB) nT (effBatch nT rT) ∧
+      f ∈ (uniqueBatchWin lastSlice nB (effBatch nB rB) nT (effBatch nT rT) idx).1 ∧
+      x ∈ (uniqueBatchWin lastSlice nB (effBatch nB rB) nT (effBatch nT rT) idx).2 :=
+  unique_cover_win lastSlice lastSlice_ok nB nT rB rT hrB hrT f x hf hx
+
+/-- the coded policy is the instance `wrapSlice` of the same statement -/
+theorem uniqueBatchWin_wrap (nB bB nT bT idx : Nat) : uniqueBatchWin wrapSlice nB bB nT bT idx = uniqueBatch nB bB nT bT idx := rfl
+
+example : lastSlice 5 2 2 = [3, 4] ∧ wrapSlice 5 2 2 = [4, 0] := by decide
+
 /-- non-vacuity: 5 functions in batches of 2 (wrap-around), 7 locations with an oversized request -/
 example : ∃ idx, idx < uniqueLen 5 (effBatch 5 2) 7 (effBatch 7 9) ∧
     4 ∈ (uniqueBatch 5 (effBatch 5 2) 7 (effBatch 7 9) idx).1 ∧ 6 ∈ (uniqueBatch 5 (effBatch 5 2) 7 (effBatch 7 9) idx).2 :=
